@@ -28,6 +28,13 @@ func (v *Vue) evalAttributes(ctx VueContext, n *html.Node) (map[string]any, erro
 		key := a.Key
 		val := strings.TrimSpace(a.Val)
 
+		// Internal attributes carry already evaluated v-html / v-text content: data, not
+		// template source. Copy them through without interpolating them again.
+		if key == "data-v-html-content" || key == "data-v-text-content" {
+			newAttrs = append(newAttrs, html.Attribute{Key: key, Val: val})
+			continue
+		}
+
 		boundValue := val
 		boundName := key
 		// literal bindings
